@@ -176,7 +176,10 @@ def apply_rewrites(case):
             if (choices[6] + i) % 3 == 0:
                 d["indent"] = ["  ", "\t", "    "][(choices[6] + i) % 3]
             if (choices[6] + i) % 5 == 0:
-                d["comment"] = [" // c", "\t//x y", " // int 5"][(choices[6] + i) % 3]
+                d["comment"] = [" // c", "\t//x y", " // int 5", "//glued", "// int 1"][(choices[6] + i) // 5 % 5]
+                if not d["comment"][0].isspace() and items[i][0] == "I" and items[i][1] in ("byte", "pushbytes", "method"):
+                    # a comment needs no white space in front of it, except directly after a base64 word
+                    d["comment"] = " " + d["comment"]
             if d:
                 deco[str(i)] = d
         new["deco"] = deco
